@@ -887,7 +887,7 @@ impl Property for C06 {
             SubBatch { name: "faults", quick: 800, thorough: 8_000 },
             SubBatch { name: "sysfaults", quick: 1_000, thorough: 12_000 },
             SubBatch { name: "stats", quick: 48, thorough: 600 },
-            SubBatch { name: "wide", quick: 160, thorough: 4_000 },
+            SubBatch { name: "wide", quick: 320, thorough: 4_000 },
             SubBatch { name: "many_shots", quick: 64, thorough: 1_200 },
             SubBatch { name: "deeper", quick: 1_200, thorough: 30_000 },
         ]
